@@ -48,7 +48,7 @@ def codepoint_sweep(ctx, letters):
     step = 0x110000 // 32
     jobs = [(lo, min(lo + step, 0x110000), letters) for lo in range(0, 0x110000, step)]
     with mp.Pool(16) as pool:
-        res = pool.map(_sweep_worker, jobs)
+        res = lib.safe_map(pool, _sweep_worker, jobs)
     acc = {}
     errs = []
     for part in res:
